@@ -6,5 +6,6 @@ def run(chk, ctx):
                        "single exclusion is lowest (within surplus for Meek, lowest quotient for QPQ), batches are sure losers leaving enough "
                        "candidates, largest surplus first, every tie logged and resolved by tie order (Scottish: prior stage), and "
                        "tie-order independence when no tie is logged (the count is re-run under a permuted tie order)")
-    cc.run(chk, ctx, 'values', ORACLES + ['c07_independence'], 1000, 100000, families=['tie', 'tie', 'tie', 'cross', 'coalition', 'small', 'nearquota', 'mid'])
+    cc.run(chk, ctx, 'values', ORACLES + ['c07_independence'], 1000, 100000, families=['tie', 'tie', 'tie', 'cross', 'coalition', 'small', 'nearquota', 'mid'],
+           extra=[('directed-batch', 1500, 60000, ['wigm-prf-batch', 'wigm-prf-batch', 'cfer-batch', 'cfer-batch', 'meek', 'mpls', 'warren'], ['coalition'])])
 def replay(chk, payload): return cc.replay(chk, payload, ORACLES + ['c07_independence'])
